@@ -216,6 +216,53 @@ class BuildError(Exception):
     pass
 
 
+COMPILER_SRCS = ["external/hash/str_set.c", "external/hash/ptr_set.c",
+                 "src/compiler/hash_tables/symbol_table.c", "src/compiler/hash_tables/scope_table.c",
+                 "src/compiler/hash_tables/name_table.c", "src/compiler/hash_tables/schema_table.c",
+                 "src/compiler/hash_tables/value_set.c", "src/compiler/fileio.c", "src/compiler/parser.c",
+                 "src/compiler/semantics.c", "src/compiler/coerce.c", "src/compiler/flatcc.c",
+                 "src/compiler/codegen_c.c", "src/compiler/codegen_c_reader.c", "src/compiler/codegen_c_sort.c",
+                 "src/compiler/codegen_c_builder.c", "src/compiler/codegen_c_verifier.c",
+                 "src/compiler/codegen_c_sorter.c", "src/compiler/codegen_c_json_parser.c",
+                 "src/compiler/codegen_c_json_printer.c", "src/compiler/codegen_schema.c",
+                 "src/runtime/builder.c", "src/runtime/emitter.c", "src/runtime/refmap.c"]
+
+
+def build_flatcc(ctx, flags=None, tag="cc", with_cli=True):
+    """Build the schema compiler from /repo's working tree (as the CMake build does: FLATCC_REFLECTION on).
+    Returns (path to the flatcc executable or None, list of library objects)."""
+    flags = list(["-O1", "-g"] if flags is None else flags)
+    od = os.path.join(ctx.work, tag)
+    os.makedirs(od, exist_ok=True)
+    inc = ["-I", os.path.join(REPO, "include"), "-I", os.path.join(REPO, "external"), "-I", os.path.join(REPO, "config"),
+           "-DFLATCC_REFLECTION=1"]
+    jobs = []
+    srcs = list(COMPILER_SRCS) + (["src/cli/flatcc_cli.c"] if with_cli else [])
+    for s in srcs:
+        o = os.path.join(od, s.replace("/", "_")[:-2] + ".o")
+        jobs.append((["-c", os.path.join(REPO, s), "-o", o] + inc + flags, o))
+    with ThreadPoolExecutor(16) as ex:
+        rs = list(ex.map(lambda j: cc(j[0]), jobs))
+    for (rc, log), j in zip(rs, jobs):
+        if rc != 0:
+            raise BuildError("compiler build failed: " + log[-2000:])
+    objs = [j[1] for j in jobs]
+    exe = None
+    if with_cli:
+        exe = os.path.join(od, "flatcc")
+        rc, log = cc(flags + objs + ["-o", exe])
+        if rc != 0:
+            raise BuildError("flatcc link failed: " + log[-2000:])
+        objs = objs[:-1]
+    return exe, objs
+
+
+def flatcc_generate(ctx, flatcc, schema_path, outdir, opts=("-a",)):
+    os.makedirs(outdir, exist_ok=True)
+    rc, out, err = sh([flatcc, *opts, "-o", outdir, schema_path], timeout=120)
+    return rc, out + err
+
+
 def build_harness(ctx, name, srcs, objs=(), flags=None, incs=(), defs=(), libs=()):
     flags = list(SAN if flags is None else flags)
     out = os.path.join(ctx.work, name)
